@@ -13,7 +13,6 @@ A depth *variable* is a model Var whose extra dims contain the axis' dimension; 
 unique ids, NaN below the (static) sea floor of its (axis, grid kind) pair.
 """
 import numpy
-import xarray
 
 from ..model.base import Var, add_variables, time_axis
 from ..rng import chance, pick
@@ -62,7 +61,7 @@ def make_axis(rng, name, dim, *, nk=None, down=None, attr='auto', deep_first=Non
         steps = numpy.round(rng.uniform(0.3, 9.0, size=nk), 3)
         first = {'positive': float(numpy.round(rng.uniform(0.25, 4.0), 3)), 'zero': 0.0,
                  'mixed': -float(numpy.round(rng.uniform(0.5, 12.0), 3))}[offset]
-    sorted_phys = first + numpy.concatenate([[0.0], numpy.cumsum(steps[1:])])     # strictly increasing = shallow -> deep
+    sorted_phys = numpy.round(first + numpy.concatenate([[0.0], numpy.cumsum(steps[1:])]), 3)     # strictly increasing = shallow -> deep
     if dtype == 'float32':
         sorted_phys = sorted_phys.astype('float32').astype('float64')
     rank = numpy.arange(nk)
@@ -89,8 +88,8 @@ def make_axis(rng, name, dim, *, nk=None, down=None, attr='auto', deep_first=Non
     bounds = chance(rng, bounds_p) if bounds is None else bounds
     if bounds:
         width = steps.min() if not dtype.startswith('int') else 1.0
-        top = phys - numpy.round(rng.uniform(0.05, 0.45, size=nk) * width, 4)
-        bottom = phys + numpy.round(rng.uniform(0.05, 0.45, size=nk) * width, 4)
+        top = numpy.round(phys - rng.uniform(0.05, 0.45, size=nk) * width, 4)
+        bottom = numpy.round(phys + rng.uniform(0.05, 0.45, size=nk) * width, 4)
         cols = [top, bottom] if chance(rng, 0.5) else [bottom, top]
         axis['bounds'] = sign * numpy.stack(cols, axis=-1)
         axis['bounds_phys'] = numpy.stack(cols, axis=-1)
